@@ -37,15 +37,14 @@ Definition expect_wt (got exp : N) : res unit := if got =? exp then Ok tt else E
 (* Go: skipTag(data, wireType) (skip int, err error) *)
 Definition skip_tag (data : bytes) (wt : N) : res Z :=
   do skip <-
-    match wt with
-    | 0 => do (_, n) <- decode_varint data; Ok n
-    | 2 => do (size, n) <- decode_varint data;
-           if u64_of_int (zlen data - n) <? size then E            (* size > uint64(len(data)-n) *)
-           else Ok (int_of_u64 size + n)%Z
-    | 5 => Ok 4%Z
-    | 1 => Ok 8%Z
-    | _ => E                                                        (* unsupported wire type *)
-    end;
+    (if wt =? 0 then do (_, n) <- decode_varint data; Ok n
+     else if wt =? 2 then
+       do (size, n) <- decode_varint data;
+       if u64_of_int (zlen data - n) <? size then E               (* size > uint64(len(data)-n) *)
+       else Ok (int_of_u64 size + n)%Z
+     else if wt =? 5 then Ok 4%Z
+     else if wt =? 1 then Ok 8%Z
+     else E);                                                      (* unsupported wire type *)
   if (zlen data <? skip)%Z then E else Ok skip.
 
 (* ---- snapshot/kv.go ---- *)
@@ -58,8 +57,7 @@ Definition kv_field (data : bytes) (offset : Z) (e : kv) : res (Z * kv) :=
   let offset := (offset + n)%Z in
   let tag := v / 8 in                    (* int(v >> 3) *)
   let wt := v mod 8 in                   (* v & 0x7 *)
-  match tag with
-  | 1 | 2 =>                             (* FieldKVKey, FieldKVValue *)
+  if (tag =? 1) || (tag =? 2) then       (* case FieldKVKey, FieldKVValue *)
       do _ <- expect_wt wt 2;
       do rest <- slice_from data offset;
       do (v, n) <- decode_varint rest;
@@ -70,21 +68,20 @@ Definition kv_field (data : bytes) (offset : Z) (e : kv) : res (Z * kv) :=
       let offset := (offset + size)%Z in
       Ok (offset, if tag =? 1 then mkKV b (k_val e) (k_ts e) (k_flags e)
                   else mkKV (k_key e) b (k_ts e) (k_flags e))
-  | 4 =>                                 (* FieldKVFlags *)
+  else if tag =? 4 then                  (* case FieldKVFlags *)
       do _ <- expect_wt wt 0;
       do rest <- slice_from data offset;
       do (v, n) <- decode_varint rest;
       Ok ((offset + n)%Z, mkKV (k_key e) (k_val e) (k_ts e) (v mod two32))      (* uint32(v) *)
-  | 3 =>                                 (* FieldKVTimestampNano *)
+  else if tag =? 3 then                  (* case FieldKVTimestampNano *)
       do _ <- expect_wt wt 1;
       if (dataSize - offset <? 8)%Z then E else
       do b <- slice3 data offset (offset + 8);
       Ok ((offset + 8)%Z, mkKV (k_key e) (k_val e) (of_le b) (k_flags e))
-  | _ =>
+  else                                   (* default *)
       do rest <- slice_from data offset;
       do n <- skip_tag rest wt;
-      Ok ((offset + n)%Z, e)
-  end.
+      Ok ((offset + n)%Z, e).
 
 Definition kv_body (data : bytes) (st : Z * kv) : res ((Z * kv) + kv) :=
   let '(offset, e) := st in
@@ -111,8 +108,7 @@ Definition index_body (data : bytes) (st : idx) : res (idx + idx) :=
   let offset := (offset + n)%Z in
   let tag := v / 8 in
   let wt := v mod 8 in
-  match tag with
-  | 2 | 1 | 4 =>                         (* FieldDBIEntries, FieldDBIName, FieldDBITransform *)
+  if (tag =? 2) || (tag =? 1) || (tag =? 4) then    (* case FieldDBIEntries, FieldDBIName, FieldDBITransform *)
       do _ <- expect_wt wt 2;
       do rest <- slice_from data offset;
       do (v, n) <- decode_varint rest;
@@ -121,21 +117,18 @@ Definition index_body (data : bytes) (st : idx) : res (idx + idx) :=
       let size := int_of_u64 v in
       do b <- slice3 data offset (offset + size);
       let offset := (offset + size)%Z in
-      Ok (inl (match tag with
-               | 1 => mkIdx offset b (i_flags st) (i_transform st)
-               | 4 => mkIdx offset (i_name st) (i_flags st) b
-               | _ => mkIdx offset (i_name st) (i_flags st) (i_transform st)
-               end))
-  | 3 =>                                 (* FieldDBIFlags *)
+      Ok (inl (if tag =? 1 then mkIdx offset b (i_flags st) (i_transform st)
+               else if tag =? 4 then mkIdx offset (i_name st) (i_flags st) b
+               else mkIdx offset (i_name st) (i_flags st) (i_transform st)))
+  else if tag =? 3 then                  (* case FieldDBIFlags *)
       do _ <- expect_wt wt 0;
       do rest <- slice_from data offset;
       do (v, n) <- decode_varint rest;
       Ok (inl (mkIdx (offset + n)%Z (i_name st) v (i_transform st)))
-  | _ =>
+  else                                   (* default *)
       do rest <- slice_from data offset;            (* data[offset:] since 0b1b953 *)
       do n <- skip_tag rest wt;
-      Ok (inl (mkIdx (offset + n)%Z (i_name st) (i_flags st) (i_transform st)))
-  end.
+      Ok (inl (mkIdx (offset + n)%Z (i_name st) (i_flags st) (i_transform st))).
 
 (* Go: DBI.indexData *)
 Definition index_data (data : bytes) : res idx :=
@@ -247,16 +240,15 @@ Definition dec_skip (maxlen : N) (p : bytes) (off : Z) (tag wt : N) : res Z :=
   let sz := Z.of_N (sizeof_varint (u64 (tag * 8))) in        (* SizeOfTagKey(tag) *)
   let bof := Z.max 0 (off - sz) in
   do skipped <-
-    match wt with
-    | 0 => do rest <- slice_from p off; do (_, n) <- decode_varint rest; Ok n
-    | 1 => Ok 8%Z
-    | 2 => do rest <- slice_from p off;
-           do (l, n) <- decode_varint rest;
-           if (n =? 0)%Z then E else
-           if maxlen <? l then E else Ok (n + int_of_u64 l)%Z
-    | 5 => Ok 4%Z
-    | _ => E
-    end;
+    (if wt =? 0 then do rest <- slice_from p off; do (_, n) <- decode_varint rest; Ok n
+     else if wt =? 1 then Ok 8%Z
+     else if wt =? 2 then
+       do rest <- slice_from p off;
+       do (l, n) <- decode_varint rest;
+       if (n =? 0)%Z then E else
+       if maxlen <? l then E else Ok (n + int_of_u64 l)%Z
+     else if wt =? 5 then Ok 4%Z
+     else E);
   if (zlen p <? off + skipped)%Z then E else
   do _ <- slice3 p bof (off + skipped);                      (* return d.p[bof:d.offset] *)
   Ok (off + skipped)%Z.
@@ -281,24 +273,30 @@ Definition meta_body (p : bytes) (st : Z * meta) : res ((Z * meta) + meta) :=
   let ml := MaxFieldLenDefault in
   if (zlen p <=? off)%Z then Ok (inr m) else               (* !d.More() *)
   do (tag, wt, off) <- dec_tag p off;
-  match tag with
-  | 1 => do (s, off) <- get_string ml p off wt;
-         Ok (inl (off, mkMeta s (m_inst m) (m_host m) (m_txn m) (m_ts m) (m_dbname m) (m_from m)))
-  | 2 => do (s, off) <- get_string ml p off wt;
-         Ok (inl (off, mkMeta (m_gen m) s (m_host m) (m_txn m) (m_ts m) (m_dbname m) (m_from m)))
-  | 3 => do (s, off) <- get_string ml p off wt;
-         Ok (inl (off, mkMeta (m_gen m) (m_inst m) s (m_txn m) (m_ts m) (m_dbname m) (m_from m)))
-  | 4 => do (x, off) <- get_int64 p off wt;
-         Ok (inl (off, mkMeta (m_gen m) (m_inst m) (m_host m) x (m_ts m) (m_dbname m) (m_from m)))
-  | 5 => do (x, off) <- get_fixed64 p off wt;
-         Ok (inl (off, mkMeta (m_gen m) (m_inst m) (m_host m) (m_txn m) x (m_dbname m) (m_from m)))
-  | 7 => do (s, off) <- get_string ml p off wt;
-         Ok (inl (off, mkMeta (m_gen m) (m_inst m) (m_host m) (m_txn m) (m_ts m) s (m_from m)))
-  | 8 => do (x, off) <- get_int64 p off wt;
-         Ok (inl (off, mkMeta (m_gen m) (m_inst m) (m_host m) (m_txn m) (m_ts m) (m_dbname m) x))
-  | _ => do off <- dec_skip ml p off tag wt;
-         Ok (inl (off, m))
-  end.
+  if tag =? 1 then
+    do (s, off) <- get_string ml p off wt;
+    Ok (inl (off, mkMeta s (m_inst m) (m_host m) (m_txn m) (m_ts m) (m_dbname m) (m_from m)))
+  else if tag =? 2 then
+    do (s, off) <- get_string ml p off wt;
+    Ok (inl (off, mkMeta (m_gen m) s (m_host m) (m_txn m) (m_ts m) (m_dbname m) (m_from m)))
+  else if tag =? 3 then
+    do (s, off) <- get_string ml p off wt;
+    Ok (inl (off, mkMeta (m_gen m) (m_inst m) s (m_txn m) (m_ts m) (m_dbname m) (m_from m)))
+  else if tag =? 4 then
+    do (x, off) <- get_int64 p off wt;
+    Ok (inl (off, mkMeta (m_gen m) (m_inst m) (m_host m) x (m_ts m) (m_dbname m) (m_from m)))
+  else if tag =? 5 then
+    do (x, off) <- get_fixed64 p off wt;
+    Ok (inl (off, mkMeta (m_gen m) (m_inst m) (m_host m) (m_txn m) x (m_dbname m) (m_from m)))
+  else if tag =? 7 then
+    do (s, off) <- get_string ml p off wt;
+    Ok (inl (off, mkMeta (m_gen m) (m_inst m) (m_host m) (m_txn m) (m_ts m) s (m_from m)))
+  else if tag =? 8 then
+    do (x, off) <- get_int64 p off wt;
+    Ok (inl (off, mkMeta (m_gen m) (m_inst m) (m_host m) (m_txn m) (m_ts m) (m_dbname m) x))
+  else
+    do off <- dec_skip ml p off tag wt;
+    Ok (inl (off, m)).
 
 (* Go: Meta.Unmarshal(data) on the existing Meta value m *)
 Definition meta_unmarshal (data : bytes) (m : meta) : res meta :=
@@ -314,20 +312,23 @@ Definition snap_body (p : bytes) (st : Z * snap_obj) : res ((Z * snap_obj) + sna
   let ml := MaxFieldLength in
   if (zlen p <=? off)%Z then Ok (inr s) else
   do (tag, wt, off) <- dec_tag p off;
-  match tag with
-  | 1 => do (x, off) <- get_uint32 p off wt;
-         Ok (inl (off, mkSnapObj x (so_compat s) (so_meta s) (so_dbis s)))
-  | 4 => do (x, off) <- get_uint32 p off wt;
-         Ok (inl (off, mkSnapObj (so_fmt s) x (so_meta s) (so_dbis s)))
-  | 2 => do (msg, off) <- get_bytes ml p off wt;
-         do m <- meta_unmarshal msg (so_meta s);
-         Ok (inl (off, mkSnapObj (so_fmt s) (so_compat s) m (so_dbis s)))
-  | 3 => do (msg, off) <- get_bytes ml p off wt;
-         do d <- new_dbi_from_data msg;
-         Ok (inl (off, mkSnapObj (so_fmt s) (so_compat s) (so_meta s) (so_dbis s ++ [d])))
-  | _ => do off <- dec_skip ml p off tag wt;
-         Ok (inl (off, s))
-  end.
+  if tag =? 1 then
+    do (x, off) <- get_uint32 p off wt;
+    Ok (inl (off, mkSnapObj x (so_compat s) (so_meta s) (so_dbis s)))
+  else if tag =? 4 then
+    do (x, off) <- get_uint32 p off wt;
+    Ok (inl (off, mkSnapObj (so_fmt s) x (so_meta s) (so_dbis s)))
+  else if tag =? 2 then
+    do (msg, off) <- get_bytes ml p off wt;
+    do m <- meta_unmarshal msg (so_meta s);
+    Ok (inl (off, mkSnapObj (so_fmt s) (so_compat s) m (so_dbis s)))
+  else if tag =? 3 then
+    do (msg, off) <- get_bytes ml p off wt;
+    do d <- new_dbi_from_data msg;
+    Ok (inl (off, mkSnapObj (so_fmt s) (so_compat s) (so_meta s) (so_dbis s ++ [d])))
+  else
+    do off <- dec_skip ml p off tag wt;
+    Ok (inl (off, s)).
 
 (* Go: Snapshot.Unmarshal(data) on a new Snapshot *)
 Definition snap_unmarshal (data : bytes) : res snap_obj :=
@@ -360,13 +361,13 @@ Definition snap_nested (p : bytes) (st : Z * snap_obj) : N :=
   let '(off, s) := st in
   match dec_tag p off with
   | Ok (tag, wt, off) =>
-      match tag with
-      | 2 => match get_bytes MaxFieldLength p off wt with
-             | Ok (msg, _) => meta_steps msg (so_meta s) | _ => 0 end
-      | 3 => match get_bytes MaxFieldLength p off wt with
-             | Ok (msg, _) => index_steps msg | _ => 0 end
-      | _ => 0
-      end
+      if tag =? 2 then
+        match get_bytes MaxFieldLength p off wt with
+        | Ok (msg, _) => meta_steps msg (so_meta s) | _ => 0 end
+      else if tag =? 3 then
+        match get_bytes MaxFieldLength p off wt with
+        | Ok (msg, _) => index_steps msg | _ => 0 end
+      else 0
   | _ => 0
   end.
 Definition unmarshal_steps (b : bytes) : N :=
